@@ -115,7 +115,7 @@ def run(chk):
                 "for pairs and distinct operation-kind sequences for histories" % len(KEYS))
     chk.assumptions = ["key equality in the oracle is the implementation's own == from the same run; 1==1.0, 0.0==-0.0 and "
                        "element-wise array equality are additionally required to be true",
-                       "integers beyond 2^53 are not mixed with floats (the stated equality is not transitive there)"]
+                       "integers beyond 2^53 are mixed with floats only in maps of two keys (the stated equality is not transitive up there, so larger key sets are undecidable)"]
     chk.floor = 2000
     jobs = []   # (keys, ops, tag)
     vid = [100]
@@ -132,6 +132,17 @@ def run(chk):
             if (i * len(KEYS) + j) % 3 == 0:
                 ops2 = [("literal", [(0, val()), (1, val())]), ("len",), ("get", 0), ("get", 1), ("idx", 1), ("idx", 0)]
                 jobs.append((keys, ops2, ("literal-pair", kind(k1), kind(k2))))
+    # integers beyond 2^53 next to the float they compare equal to: two keys only, so the non-transitivity of == up
+    # there does not come into play, and "same entry iff ==" is decidable
+    bigs = [(1 << 53) + 1, (1 << 53) + 2, (1 << 53) + 3, 1234567890123456789, (1 << 63) - 1, (1 << 63) - 2, (1 << 62) + 1, -(1 << 53) - 1,
+            -(1 << 63) + 1, -(1 << 63), 9007199254740993, 4611686018427387905, (1 << 60) + 7]
+    for n in bigs:
+        for other in (float(n), n, max(n - 1, -(1 << 63)), float(n - 1), Arr([float(n)])):
+            for keys in ([n, other], [other, n], [Arr([n]), Arr([other])] if not isinstance(other, Arr) else [Arr([n]), other]):
+                ops = [("insert", 0, val()), ("get", 1), ("contains", 1), ("len",), ("set", 1, val()), ("len",), ("get", 0),
+                       ("insert", 0, val()), ("idx", 0), ("len",)]
+                jobs.append((keys, ops, ("big-pair", kind(keys[0]), kind(keys[1]))))
+                jobs.append((keys, [("literal", [(0, val()), (1, val())]), ("len",), ("get", 0), ("get", 1)], ("big-literal-pair", kind(keys[0]), kind(keys[1]))))
     groups = [[0, 0.0, -0.0, Byte(0), False, None, "", Arr([]), Arr([0.0]), Arr([-0.0])],
               [1, 1.0, Byte(1), True, "1", Char("1"), Arr([1]), Arr([1.0]), Byte(49)],
               [2, 2.0, Arr([1, 2]), Arr([1.0, 2.0]), Arr([1, 2.0]), 3, 3.0],
